@@ -525,6 +525,9 @@ const WITNESSES: [(&str, &str); 7] = [
     ("fix_push_choice", "a = { PUSH( | \"a\" ) }"),
 ];
 const WITNESS_UNROLL: &str = "a = { \"x\"{4294967294,} }";
+/// not C09 defects: two repairs made for C06 change functions that the C09 model covers; the model follows the tree
+/// (accepted = as shipped, rejected = repaired; the second one only exists with grammar-extras)
+const STATE_PROBES: [(&str, &str); 2] = [("fix_lr", "a = { a? ~ \"x\" }"), ("fix_tag", "a = { #t = (\"\"*) ~ \"x\" }")];
 
 fn main() {
     let mode = arg(1);
@@ -549,6 +552,7 @@ fn main() {
             let c = out.run("probe-fix_unroll", WITNESS_UNROLL);
             out.hard_ms = HARD_MS;
             kv.push(format!("fix_unroll={}", if c == "PANIC" { 0 } else { 1 }));
+            for (k, t) in STATE_PROBES { let c = out.run(&format!("probe-{}", k), t); kv.push(format!("{}={}", k, if c == "rules" { 0 } else { 1 })); }
             writeln!(out.w, "#PROBE\t{}", kv.join("\t")).unwrap();
         }
         "one" => { let t = unesc(&arg(2)); out.run("one", &t); }
